@@ -75,7 +75,8 @@ claim('C14',
       'declared problem size all buffer accesses are in bounds, no signed overflow or out-of-range float->int conversion '
       'occurs, dual/primal readers are offered at most NumAlgCons/NumVars values (precondition checks at the real call '
       'sites), suffix buffers are sized from the validated header and their zero sentinel is never overwritten, a reader '
-      'with an error or unread values always yields a non-OK result, and only documented result codes are returned.',
+      'with an error or unread values always yields a non-OK result, only documented result codes are returned, and file-derived '
+      'text never reaches a printf-style function as the format (CheckReader passes the reader\'s message as an argument of "%s").',
       'Trusted: CBMC, extractor (members as globals, std::string/vector as pointer+length, block stubs for File::Open and the '
       'solve_msg_ string handling), the libc stubs in shims/stdio_stubs.h, allocation succeeds. Termination of the file-driven '
       'loops is not claimed (files are finite). Library writes into the file-sized suffix buffer havoc the whole buffer. '
@@ -115,7 +116,8 @@ claim('C05',
       'name, the table and then the value lines; SuffixValueWriter::Visit writes "<index> <value>" (reals with {:.16}); '
       'BasicSuffix<T>::VisitValues visits exactly the non-zero values in index order (so the announced count and the lines '
       'agree); SuffixValueCounter::Visit counts. (4) Reader accepts what the writer writes: SOLReader2::sufheadcheck accepts every '
-      'suffix header the writer can produce. '
+      'suffix header the writer can produce, the option-count / size-check / objno lines, and every table line the writer writes '
+      '(ghost fgets stream over the written bytes). '
       'Two genuine writer/reader disagreements are recorded as known findings (fewer than 3 options; vbtol form of the options).',
       'Trusted: CBMC, extractor, the ghost output model (fputc/fwrite/print always succeed; "{}" of an integer prints its '
       'decimal digits, "{:.16}" a double with 16 significant digits). Not decided: number round trip itself (fmt formatting vs '
@@ -161,7 +163,9 @@ claim('C02',
       'arguments between Begin and End, Begin/End properly nested, arguments handed over in reading order and never null, '
       'variable / function / common-expression indices in range, every notification names the operator whose opcode was read, '
       'every record starts at a line start. The segment dispatcher NLReader::Read with a loop invariant: segment-head indices in '
-      'range, common-expression Begin/End pairing, function type, suffix kind vs item class.',
+      'range, common-expression Begin/End pairing, function type, suffix kind vs item class. Functional clauses: a numeral that does not '
+      'fit its type is rejected, never accepted as a wrapped value (ReadIntWithoutSign); the header round trip: the library\'s own header '
+      'formatter expanded into a token stream and the real ReadHeader run over it report every field as written, for every valid header.',
       'Trusted: CBMC, extractor, *end_ == 0 (ReaderBase ctor / zero-filled mmap tail), isspace/strtod/memcpy/std::reverse stubs. '
       'Callers use constructive stubs of the callee contracts (a contract that assigns the global cursor cannot be replaced in '
       'CBMC without losing points-to information); each stub is checked against the contract text. At the NLReader level the '
@@ -178,7 +182,9 @@ claim('C04',
       'max-among-nonzero of old and new, frame via an arbitrary witness slot) and a lemma that two transfers into one slot '
       'commute; function contracts on the real RangeCon2Slack entry functions (PostsolveSolution, Pre/PostsolveBasis with '
       'ReverseBasisLowUpp, PostsolveIIS incl. the raise on an unknown slack value, Pre/PostsolveGeneric int/double, lazy/user-cut '
-      'flags) whose postconditions are the documented slack mapping of the statement, for all node sizes, indices and values.',
+      'flags) whose postconditions are the documented slack mapping of the statement, for all node sizes, indices and values; '
+      'ValueNode::CleanUpAndRealloc[_Names]: before each transfer every value array has the node\'s size and holds only zeros '
+      '(no value of an earlier transfer survives).',
       'Trusted: CBMC, extractor, value vectors as (pointer,length), Get/Set accessors bound to three node arrays with the proved '
       'SetNum rule, target entries cleaned to zero before a transfer (assumed), no NaN. Not decided: the link graph itself '
       '(CopyLink, One2Many/Many2One, autolinking over std::deque), exactly-one-value-per-item, CleanUpValueNodes, slack value '
@@ -191,11 +197,14 @@ claim('C07',
       'lists of any length and any point. Max/Min: >= / <= every argument (arbitrary witness) and <= / >= every common bound of '
       'the arguments, i.e. exactly the maximum/minimum; And/Or: 0/1, decided by any false/true witness and 1/0 when none exists; '
       'Abs/Not/IfThen/Implication: the mathematical value; AllDiff: 0 whenever two arguments are equal; Count: in [0,n], n when '
-      'all true, 0 when none; Violation::Check: violated iff viol > epsabs and (valX == 0 or |viol/valX| > epsrel).',
+      'all true, 0 when none; Violation::Check: violated iff viol > epsabs and (valX == 0 or |viol/valX| > epsrel). '
+      'Which constraints count: IndicatorConstraint::ComputeViolation (the implied constraint counts exactly when the binary\'s nearest '
+      'integer is the indicator value), FunctionalConstraint::ComputeViolation (result variable against the recomputed value, by context), '
+      'AlgebraicConstraint::ComputeViolation and AlgConRhs<kind>::ComputeViolation (lower / upper side per comparison kind).',
       'Trusted: CBMC (fabs/round models), extractor, arguments are valid variable indices (model invariant, assumed at each access), '
       'no NaN in the point. Not decided: exact counting for Count/Numberof, the quotient of Div (double division is beyond every '
-      'installed back end), the converse of AllDiff, transcendental evaluators, which constraints are checked, recomputation of '
-      'auxiliary variables, option plumbing, solve code 150. No native replay driver.',
+      'installed back end), the converse of AllDiff, transcendental evaluators, which constraints the driver passes to the checker, recomputation of '
+      'auxiliary variables, option plumbing, solve code 150. Native replay: replay/c07_replay.cc (grid of points on the real evaluators).',
       'DESIGN.md 4 C07')
 
 claim('C06',
@@ -203,14 +212,15 @@ claim('C06',
       'FlatModel::{lb_array, ub_array, lb_max_array, ub_min_array, common_type, is_fixed, fixed_value, is_integer_var, '
       'is_integer_value}, count_fixed_01, FixEqualityResult, the rhs rounding of conditional comparisons (all four kinds, all '
       'doubles) and PreprocessConstraint for Abs, Min, Max, IfThen, Not, AllDiff, Implication, Count, NumberofConst, NumberofVar, '
-      'the fixed-result part of And/Or, and the result boxes of Exp, ExpA, Sin, Cos, Tanh, Asin, Acos, Atan, Cosh, Acosh - for '
+      'the fixed-result part of And/Or, Div (result box = hull of the four corner quotients, corner quotients as opaque ghost values; '
+      'integer result type only for an exact integer quotient of fixed integers), and the result boxes of Exp, ExpA, Sin, Cos, Tanh, Asin, Acos, Atan, Cosh, Acosh - for '
       'argument lists and models of any size: the array functions return exactly the min/max of the box ends (witness position + '
       'arbitrary common bound), types are INTEGER only for integer-valued arguments, aliases only when exact, fixed results only '
       'when justified for every body value, range boxes contain the range constants of the functions.',
       'Trusted: CBMC (fabs/floor/ceil models), extractor (prepro / model handle objects as free functions), arguments are valid '
       'variable indices, bounds not NaN, the body box given to FixEqualityResult is sound. NOT under contract (IEEE '
       'multiplication/division/pow monotonicity is beyond every installed back end): ComputeBoundsAndType for linear/quadratic '
-      'terms, ProductBounds, Div, Pow, And/Or argument filtering, NarrowVarBounds propagation, lin_approx.h. The claim is restricted '
+      'terms, ProductBounds, the arithmetic of Div\'s corner quotients, Pow, And/Or argument filtering, NarrowVarBounds propagation, lin_approx.h. The claim is restricted '
       'accordingly.',
       'DESIGN.md 4 C06')
 
